@@ -82,6 +82,10 @@ class RefEngine:
         return out
 
     def load_initial(self) -> None:
+        # "stash": events that a handler of an EARLIER, completed simulation built and kept; they are older than
+        # everything built by hand afterwards and are scheduled into this run together with the initial events
+        for st in self.prog.get("stash", []):
+            self._new_event(st["t"], st["to"], st["k"], st.get("daemon", False))
         for ini in self.prog["initial"]:
             rec = self._new_event(ini["t"], ini["to"], ini["k"], ini.get("daemon", False))
             if ini.get("cancel"):
